@@ -431,6 +431,10 @@ def handleGc (cmd : String) (args : List String) : String :=
       match decStr tp, decStr real, decStr p with
       | some a, some r, some b => encStr (normalize a r b)
       | _, _, _ => "bad-op"
+  | "gc.ref", [loc, tp, real, p] =>
+      match decStr tp, decStr real, decStr p with
+      | some a, some r, some b => encStr (referenced (loc == "1") a r b)
+      | _, _, _ => "bad-op"
   | "gc.normold", [tp, p] =>
       match decStr tp, decStr p with
       | some a, some b => encStr (normalizeOld a b)
